@@ -215,6 +215,45 @@ def run(chk):
         nt.append({'seed': rng.randint(0, 10 ** 6), 'pool': pool, 'ops': [first, later]})
     run_scenarios(chk, 'a task without a time limit after calls that had one, on the same workers (DetSim)', nt, {'C09', 'C03'}, nontrivial=lambda sc, o: True,
                   dist=lambda sc, o: {'first': sc['ops'][0]['op'], 'n_jobs': sc['pool']['n_jobs']})
+    # worker_exit functions that overrun in several workers which reach them at different moments (one worker is still busy with an apply
+    # task when the pool is joined): TimeoutError within the limit of the first one to overrun, however long the others would block
+    xs = []
+    for _ in range(30 if chk.tier == 'quick' else 400):
+        nj = rng.choice([2, 3])
+        busy = rng.randrange(nj)
+        t = rng.choice([0.2, 0.3])
+        xs.append({'seed': rng.randint(0, 10 ** 6), 'pool': {'n_jobs': nj, 'start_method': 'fork'}, 'latency': 1.0 + t + 1.0,
+                   'ops': [{'op': 'apply_batch', 'tasks': [{'idx': i} for i in range(nj)], 'exit': True, 'worker_exit_timeout': t, 'exit_dur': rng.choice([50.0, 600.0]),
+                            'dur': {'kind': 'map', 'map': {str(busy): 1.0}, 'default': 0.01}, 'join_first': True, 'get_timeout': 5}]})
+    xobs = run_scenarios(chk, 'worker_exit overruns in workers that reach it at different moments (DetSim)', xs, set(), nontrivial=lambda sc, o: True,
+                         dist=lambda sc, o: {'n_jobs': sc['pool']['n_jobs']})
+    for sc, o in zip(xs, xobs):
+        if o.get('harness_error') or o.get('stuck') or not o.get('ops'):
+            continue
+        oo = o['ops'][0]
+        if oo.get('outcome') != 'raise' or (oo.get('exc') or {}).get('type') != 'TimeoutError':
+            chk.violation('timeout_fires_worker_exit', {'scenario': sc}, {'outcome': oo.get('outcome'), 'raised': oo.get('exc')}, 'stop_and_join raises TimeoutError', input_class='exit_staggered')
+        elif oo.get('t1') is not None and oo['t1'] > sc['latency']:
+            chk.violation('timeout_latency', {'scenario': sc}, {'raised_at': oo['t1'], 'bound': sc['latency']}, 'within the time limit of the first exit function to overrun (plus polling)',
+                          input_class='exit_staggered_latency')
+    # a task that overruns on a worker that replaced one that died: interrupted like on any other worker, so that what is queued behind it
+    # is served
+    rp = []
+    for _ in range(30 if chk.tier == 'quick' else 400):
+        rp.append({'seed': rng.randint(0, 10 ** 6), 'pool': {'n_jobs': 1, 'start_method': 'fork'},
+                   'ops': [{'op': 'apply_batch', 'tasks': [{'idx': 0}, {'idx': 1}], 'dur': {'kind': 'map', 'map': {}, 'default': 0.05}, 'get_timeout': 30},
+                           {'op': 'apply_batch', 'tasks': [{'idx': 0}, {'idx': 1}, {'idx': 2}], 'task_timeout': rng.choice([0.2, 0.3]), 'get_timeout': 20,
+                            'dur': {'kind': 'map', 'map': {'0': rng.choice([50.0, 600.0])}, 'default': 0.01}}],
+                   'inject': [{'kind': 'sigkill', 'victim': 'Worker-0', 'when': 'in_user', 'nth': rng.randint(1, 2)}]})
+    robs = run_scenarios(chk, 'a task overruns on the replacement of a worker that died (DetSim)', rp, {'C03'}, nontrivial=lambda sc, o: bool(o.get('injected')),
+                         dist=lambda sc, o: {'killed': bool(o.get('injected'))})
+    for sc, o in zip(rp, robs):
+        if o.get('harness_error') or o.get('stuck') or len(o.get('ops', [])) < 2:
+            continue
+        got = {a[0]: (a[1], a[2]) for a in o['ops'][1].get('apply', [])}
+        if got.get(0) != ('raise', 'TimeoutError') or got.get(1, ('?',))[0] != 'ok' or got.get(2, ('?',))[0] != 'ok':
+            chk.violation('timeout_interrupts_only_that_task', {'scenario': sc}, {'outcomes': got}, 'the overrunning task fails with TimeoutError, the tasks behind it complete',
+                          input_class='replacement_timeout')
     ms = mixed_scenarios(rng, 80 if chk.tier == 'quick' else 1200)
     mobs = run_scenarios(chk, 'an apply task times out while a map-family call without timeouts runs on the same pool (DetSim)', ms, {'C01', 'C02'},
                          nontrivial=lambda sc, o: True, dist=lambda sc, o: {'map_kind': sc['ops'][1]['op'], 'n_jobs': sc['pool']['n_jobs']})
